@@ -1,8 +1,10 @@
 package main
 
 import (
+	"bytes"
 	"encoding/json"
 	"fmt"
+	"io"
 	"os"
 	"path/filepath"
 	"strings"
@@ -50,7 +52,17 @@ func c18Eval(r *core.Run, c *c18Case) {
 	var perr any
 	func() {
 		defer func() { perr = recover() }()
-		s, _, _, _ = scanAll(d.Render(), opts)
+		in := d.Render()
+		if c.Idx%7 == 5 {
+			// the dump is followed by a goroutine whose frame is malformed: the snapshot is handed out together with a
+			// parse error, and is to be resolved like any other
+			in = append(bytes.TrimRight(in, "\n"), []byte("\n\ngoroutine 99999 [running]:\nmain.broken(0x1)\nthis is not a file line\n")...)
+		}
+		var err error
+		s, _, _, err = scanAll(in, opts)
+		if err != nil && err != io.EOF {
+			r.Count("snapshots_returned_with_an_error", 1)
+		}
 	}()
 	r.Eval(1)
 	if perr != nil {
